@@ -368,7 +368,7 @@ func findTagByType(tagType tagType) (uintptr, uint32) {
 		}
 
 		// Tags are aligned at 8-byte aligned addresses
-		curPtr += uintptr(int32(ptrTagHeader.size+7) & ^7)
+		curPtr += (uintptr(ptrTagHeader.size) + 7) &^ 7
 	}
 
 	return 0, 0
